@@ -40,6 +40,12 @@ func vpH_C20_mux() {
 	}
 	upgrade := vpString("upgrade", vpChoice("upgradelen", 2))
 	accept := vpString("accept", []int{0, 21, 22, 23}[vpChoice("acceptlen", 4)])
+	for i := 0; i < len(upgrade); i++ {
+		vpAssume(upgrade[i] < 0x80) // header field values are ASCII
+	}
+	for i := 0; i < len(accept); i++ {
+		vpAssume(accept[i] < 0x80)
+	}
 	w := &vpRespWriter{hdr: http.Header{}}
 	relayCalls := 0
 	vpStub("(net/http.Header).Get", func(h http.Header, key string) string {
